@@ -14,6 +14,7 @@ import (
 
 	"github.com/hashicorp/memberlist"
 	"github.com/hashicorp/serf/serf"
+	"github.com/hashicorp/serf/zzverif/vsched"
 )
 
 // Packet is one recorded transport write.
@@ -192,15 +193,19 @@ func (n *Node) Ping() memberlist.PingDelegate         { return n.Conf.Memberlist
 // Outbox drains every queued broadcast (intents, queries, events).
 func (n *Node) Outbox() [][]byte {
 	var out [][]byte
-	for i := 0; i < 64; i++ {
-		m := n.Delegate().GetBroadcasts(2, 1400)
-		if len(m) == 0 {
-			break
+	// atomic: memberlist's queue calls Serf.NumNodes (a lock = scheduling point)
+	// while holding its own real mutex
+	vsched.Atomic(func() {
+		for i := 0; i < 64; i++ {
+			m := n.Delegate().GetBroadcasts(2, 1400)
+			if len(m) == 0 {
+				break
+			}
+			for _, b := range m {
+				out = append(out, append([]byte{}, b...))
+			}
 		}
-		for _, b := range m {
-			out = append(out, append([]byte{}, b...))
-		}
-	}
+	})
 	return out
 }
 
